@@ -52,6 +52,7 @@ ALL_KANI = ["size_rotation_necessary_contract", "increase_size_contract", "rotat
             "filter_no_infix", "filter_multibyte_neighbour", "filter_equals_current", "filter_compressed",
             "filter_suffix_tail_catalog", "filter_suffix_tail_tgz", "filter_suffix_no_dot",
             "ts_infix_member", "ts_infix_short_name", "ts_infix_restart_sibling",
+            "restart_number_member", "restart_number_short", "restart_number_not_numeric", "restart_number_multibyte", "restart_number_no_marker", "restart_number_plus_sign",
             "level_sort_sorts_by_descending_name_length", "max_level_is_the_maximum", "max_level_of_the_empty_specification_is_off"]
 # the harnesses are selected per property by their own property tags (lib/kani_unit.py HARNESSES)
 PROP_KANI = {p: ALL_KANI for p in ("C01", "C02", "C05", "C06", "C07", "C08", "C10", "C13", "C14", "C16")}
